@@ -1,5 +1,179 @@
-//! Cross-validation of the reference codec against ground truth that did not come from the library.
+//! Cross-validation of the reference codec against ground truth that did not come from the library:
+//! dnspython-produced vectors, the RFC 1035 4.1.4 example, RFC 9460 appendix D vectors, a hand-assembled
+//! RFC 6891 message, and the codec's own encode∘decode identity.
+
+use crate::gen::{Cfg, Gen};
+use crate::refdns::*;
+use crate::rng::Rng;
+
+fn fail(msg: String) -> i32 {
+    println!("selftest FAILED: {}", msg);
+    2
+}
+
 pub fn main() -> i32 {
-    println!("selftest: not implemented yet");
+    let mut checks = 0u64;
+
+    // ---- 1. dnspython vectors -----------------------------------------------------------------
+    let dir = "/repo/simple-dns/samples/zonefile";
+    let mut files = 0;
+    if let Ok(rd) = std::fs::read_dir(dir) {
+        let mut paths: Vec<_> = rd.flatten().map(|e| e.path()).collect();
+        paths.sort();
+        for p in paths {
+            let Ok(data) = std::fs::read(&p) else { continue };
+            files += 1;
+            let mut pos = 0usize;
+            while pos < data.len() {
+                let n = match decode_name(&data, pos) {
+                    Ok(n) => n,
+                    Err(e) => return fail(format!("{}: owner name at {}: {:?}", p.display(), pos, e)),
+                };
+                let h = n.next;
+                if h + 10 > data.len() {
+                    return fail(format!("{}: truncated RR header", p.display()));
+                }
+                let rtype = u16::from_be_bytes([data[h], data[h + 1]]);
+                let rdlen = u16::from_be_bytes([data[h + 8], data[h + 9]]) as usize;
+                if h + 10 + rdlen > data.len() {
+                    return fail(format!("{}: RDLENGTH past the end", p.display()));
+                }
+                if schema(rtype).is_none() {
+                    return fail(format!("{}: no schema for type {}", p.display(), rtype));
+                }
+                match decode_rdata(&data, h + 10, rdlen, rtype) {
+                    Ok((fields, _)) => {
+                        let re = encode_rdata_plain(rtype, &Rd::Fields(fields));
+                        if re != data[h + 10..h + 10 + rdlen] {
+                            return fail(format!("{}: re-encoding of type {} differs from the dnspython bytes", p.display(), rtype));
+                        }
+                        checks += 1;
+                    }
+                    Err(e) => return fail(format!("{}: type {} RDATA does not decode under the schema: {:?}", p.display(), rtype, e)),
+                }
+                pos = h + 10 + rdlen;
+            }
+        }
+    }
+    if files < 20 {
+        println!("selftest note: only {} dnspython vector files found under {}", files, dir);
+    }
+
+    // ---- 2. RFC 1035 section 4.1.4 example -------------------------------------------------------
+    {
+        let mut b = vec![0u8; 93];
+        let f_isi_arpa: &[u8] = &[1, b'F', 3, b'I', b'S', b'I', 4, b'A', b'R', b'P', b'A', 0];
+        b[20..32].copy_from_slice(f_isi_arpa);
+        b[40..44].copy_from_slice(&[3, b'F', b'O', b'O']);
+        b[44..46].copy_from_slice(&[0xC0, 20]);
+        b[64..66].copy_from_slice(&[0xC0, 26]);
+        b[92] = 0;
+        let lbl = |s: &str| s.as_bytes().to_vec();
+        let cases: Vec<(usize, NameM, usize)> = vec![
+            (20, vec![lbl("F"), lbl("ISI"), lbl("ARPA")], 32),
+            (40, vec![lbl("FOO"), lbl("F"), lbl("ISI"), lbl("ARPA")], 46),
+            (64, vec![lbl("ARPA")], 66),
+            (92, vec![], 93),
+        ];
+        for (off, want, next) in cases {
+            match decode_name(&b, off) {
+                Ok(n) if n.labels == want && n.next == next => checks += 1,
+                other => return fail(format!("RFC 1035 4.1.4 example at offset {}: {:?}", off, other)),
+            }
+        }
+    }
+
+    // ---- 3. RFC 9460 appendix D vectors ----------------------------------------------------------------
+    {
+        let foo_example_com: &[u8] = b"\x03foo\x07example\x03com\x00";
+        let lbl = |s: &str| s.as_bytes().to_vec();
+        let fec: NameM = vec![lbl("foo"), lbl("example"), lbl("com")];
+        let mut v: Vec<(Vec<u8>, Vec<F>)> = Vec::new();
+        v.push(([&b"\x00\x00"[..], foo_example_com].concat(), vec![F::Int(0), F::Name(fec.clone()), F::Pairs(vec![])]));
+        v.push((b"\x00\x01\x00".to_vec(), vec![F::Int(1), F::Name(vec![]), F::Pairs(vec![])]));
+        v.push(([&b"\x00\x10"[..], foo_example_com, b"\x00\x03\x00\x02\x00\x35"].concat(), vec![F::Int(16), F::Name(fec.clone()), F::Pairs(vec![(3, vec![0, 0x35])])]));
+        v.push(([&b"\x00\x01"[..], foo_example_com, b"\x02\x9b\x00\x05hello"].concat(), vec![F::Int(1), F::Name(fec.clone()), F::Pairs(vec![(667, b"hello".to_vec())])]));
+        v.push((
+            [&b"\x00\x10\x03foo\x07example\x03org\x00"[..], b"\x00\x00\x00\x04\x00\x01\x00\x04", b"\x00\x01\x00\x09\x02h2\x05h3-19", b"\x00\x04\x00\x04\xc0\x00\x02\x01"].concat(),
+            vec![F::Int(16), F::Name(vec![lbl("foo"), lbl("example"), lbl("org")]), F::Pairs(vec![(0, vec![0, 1, 0, 4]), (1, b"\x02h2\x05h3-19".to_vec()), (4, vec![192, 0, 2, 1])])],
+        ));
+        for (bytes, want) in v {
+            for t in [64u16, 65] {
+                match decode_rdata(&bytes, 0, bytes.len(), t) {
+                    Ok((f, _)) if f == want => {
+                        if encode_rdata_plain(t, &Rd::Fields(f)) != bytes {
+                            return fail("RFC 9460 vector does not re-encode identically".into());
+                        }
+                        checks += 1;
+                    }
+                    other => return fail(format!("RFC 9460 appendix D vector: {:?}", other.map(|x| x.0))),
+                }
+            }
+        }
+        // failure cases of appendix D.3: key order / duplicate keys
+        let bad = [&b"\x00\x01"[..], foo_example_com, b"\x00\x03\x00\x02\x00\x35\x00\x01\x00\x03\x02h2"].concat();
+        if decode_rdata(&bad, 0, bad.len(), 64).is_ok() {
+            return fail("SVCB with decreasing keys accepted by the reference decoder".into());
+        }
+        checks += 1;
+    }
+
+    // ---- 4. hand-assembled RFC 6891 message ---------------------------------------------------------------
+    {
+        let b: &[u8] = &[
+            0x12, 0x34, 0x81, 0x80, 0, 0, 0, 0, 0, 0, 0, 1, 0x00, 0x00, 0x29, 0x10, 0x00, 0x01, 0x00, 0x80, 0x00, 0x00, 0x08, 0x00, 0x0a, 0x00, 0x04, 1, 2, 3, 4,
+        ];
+        match decode_typed(b) {
+            Ok(t) => {
+                let r = &t.msg.secs[2][0];
+                let ok = r.name.is_empty() && r.rtype == 41 && r.class == 4096 && r.ttl == 0x0100_8000 && r.rd == Rd::Fields(vec![F::Pairs(vec![(10, vec![1, 2, 3, 4])])]);
+                if !ok {
+                    return fail(format!("hand-assembled OPT message decoded as {:?}", r));
+                }
+                checks += 1;
+            }
+            Err(e) => return fail(format!("hand-assembled OPT message: {:?}", e)),
+        }
+    }
+
+    // ---- 5. encode∘decode identity, all compression plans ----------------------------------------------------------
+    for idx in 0..3000u64 {
+        let mut r = Rng::for_case(0x5E1F, "selftest", idx);
+        let mut g = Gen::new(&mut r, Cfg { share: 70, max_entries: 4, max_rest: 30, ..Default::default() });
+        let p = g.packet();
+        let mut m = p.to_wire(g.r.usize(0, 4));
+        // RDLENGTH 0 decodes as empty opaque RDATA (an OPT without options): normalise the expectation
+        for s in m.secs.iter_mut() {
+            for r in s.iter_mut() {
+                if encode_rdata_plain(r.rtype, &r.rd).is_empty() {
+                    r.rd = Rd::Opaque(vec![]);
+                }
+            }
+        }
+        let plan = match idx % 3 {
+            0 => Plan::None,
+            1 => Plan::Canonical,
+            _ => Plan::Arbitrary(Rng::for_case(0x5E1F, "selftest-plan", idx)),
+        };
+        let e = encode(&m, plan);
+        match decode_typed(&e.bytes) {
+            Ok(t) => {
+                if t.msg != m {
+                    return fail(format!("encode∘decode identity broken for generated message {}", idx));
+                }
+                if t.env.end != e.bytes.len() {
+                    return fail("walker did not consume the whole encoded message".into());
+                }
+                // every name decodes without forward pointers
+                let fw = t.env.qs.iter().any(|q| q.name.forward) || t.env.secs.iter().flatten().any(|r| r.name.forward) || t.rd_names.iter().flatten().flatten().any(|n| n.name.forward);
+                if fw {
+                    return fail("reference encoder emitted a forward pointer".into());
+                }
+                checks += 1;
+            }
+            Err(e2) => return fail(format!("reference decoder rejects reference encoding {}: {:?}", idx, e2)),
+        }
+    }
+    println!("selftest ok: {} cross-validation checks ({} dnspython vector files)", checks, files);
     0
 }
